@@ -6,6 +6,8 @@ import (
 	"fmt"
 	"os"
 	"path/filepath"
+	"runtime"
+	"runtime/debug"
 	"sort"
 	"strings"
 
@@ -164,7 +166,7 @@ func (c c11Case) run(viol func(sig, detail string), r *core.Run) {
 		for _, pr := range c11Pairs() {
 			if c11PairName(pr) == c.Pair {
 				gen.WithWidth(2, func() {
-					xplore.RunOne(c.Choices, nil, 0, func(x *xplore.Ctx) string { return c11ConcurrentBody(pr, c11Solo(pr), x, viol) })
+					xplore.RunOne(c.Choices, nil, 0, func(x *xplore.Ctx) string { return c11ConcurrentBody(pr, c11Solo(pr), x, viol, nil) })
 				})
 				return
 			}
@@ -304,13 +306,15 @@ func (c c11Case) run(viol func(sig, detail string), r *core.Run) {
 type c11Build struct {
 	name string
 	run  func(s *store.Store, ls *ipld.LinkSystem) (ipld.Link, uint64, error)
+	// content: for file builds, the bytes the file must read back to
+	content []byte
 }
 
 func c11Pairs() [][2]c11Build {
 	fileOf := func(n int, chunker string) c11Build {
 		return c11Build{fmt.Sprintf("file-%d-%s", n, chunker), func(s *store.Store, ls *ipld.LinkSystem) (ipld.Link, uint64, error) {
 			return builder.BuildUnixFSFile(bytes.NewReader(gen.Content(n, 3, "distinct")), chunker, ls)
-		}}
+		}, gen.Content(n, 3, "distinct")}
 	}
 	dirOf := func(names ...string) c11Build {
 		return c11Build{fmt.Sprintf("dir%q", names), func(s *store.Store, ls *ipld.LinkSystem) (ipld.Link, uint64, error) {
@@ -319,21 +323,25 @@ func c11Pairs() [][2]c11Build {
 				return nil, 0, err
 			}
 			return builder.BuildUnixFSDirectory(links, ls)
-		}}
+		}, nil}
 	}
 	symOf := func(n int) c11Build {
 		return c11Build{fmt.Sprintf("symlink-%d", n), func(s *store.Store, ls *ipld.LinkSystem) (ipld.Link, uint64, error) {
 			return builder.BuildUnixFSSymlink(strings.Repeat("t", n), ls)
-		}}
+		}, nil}
 	}
 	return [][2]c11Build{
 		{fileOf(3, "size-3"), fileOf(1000, "size-1000")},
 		{fileOf(7, "size-3"), fileOf(2, "size-3")},
+		{fileOf(7, "size-3"), fileOf(10, "size-3")},
+		{fileOf(13, "size-3"), fileOf(16, "size-2")},
 		{fileOf(3, "size-3"), dirOf("a", "bb", "ccc")},
 		{symOf(5), fileOf(400, "size-500")},
 		{dirOf("x"), dirOf("a long entry name", "b", "c", "d")},
 	}
 }
+
+var c11execs int
 
 func c11PairName(pr [2]c11Build) string { return pr[0].name + " || " + pr[1].name }
 
@@ -348,7 +356,7 @@ func c11Solo(pr [2]c11Build) [2]string {
 }
 
 // c11ConcurrentBody is one scheduled execution (link width must be 2).
-func c11ConcurrentBody(pr [2]c11Build, solo [2]string, x *xplore.Ctx, viol func(sig, detail string)) string {
+func c11ConcurrentBody(pr [2]c11Build, solo [2]string, x *xplore.Ctx, viol func(sig, detail string), post func(s *store.Store, roots [2]ipld.Link, choices []int)) string {
 	desc := c11PairName(pr)
 	s := store.New()
 	ls := s.LinkSystem() // one LinkSystem value, shared by pointer
@@ -364,10 +372,24 @@ func c11ConcurrentBody(pr [2]c11Build, solo [2]string, x *xplore.Ctx, viol func(
 			return fmt.Sprintf("%v/%d/%v", l, sz, err)
 		}
 	}
-	sc := runScheduled(x, nil, nil, []func() string{body(0), body(1)})
+	// scheduling points: storage operations and (instrumented build) sync
+	// operations; instrumented accesses feed the race oracle only
+	oldGC := debug.SetGCPercent(-1) // no address reuse inside one execution (see C17)
+	sc := runScheduled(x, map[string]bool{}, nil, []func() string{body(0), body(1)})
+	debug.SetGCPercent(oldGC)
+	c11execs++
+	if c11execs%300 == 0 {
+		runtime.GC()
+	}
 	s.OnOpen, s.OnWrite, s.OnCommit = nil, nil, nil
 	if sc.deadlock != "" {
 		viol("deadlock concurrent-builds", desc+": "+sc.deadlock)
+	}
+	for pair, kind := range sc.races {
+		viol("data-race concurrent-builds "+pair, fmt.Sprintf("%s: unsynchronised conflicting accesses %s [%s] (choices %v)", desc, pair, kind, x.Choices))
+	}
+	if post != nil {
+		post(s, roots, x.Choices)
 	}
 	for i, t := range sc.threads {
 		if t.panicv != nil {
@@ -399,7 +421,7 @@ func c11Concurrent(r *core.Run) {
 			ex.Explore(func(x *xplore.Ctx) string {
 				return c11ConcurrentBody(pr, solo, x, func(sig, detail string) {
 					r.Violate(sig, detail, c11Case{Kind: "concurrent", Pair: desc, Choices: append([]int{}, x.Choices...)})
-				})
+				}, nil)
 			}, func(res xplore.Result) {
 				if res.Panic != nil {
 					r.Violate("panic scheduler", fmt.Sprint(res.Panic), nil)
